@@ -3,7 +3,7 @@
 cd /verif
 NAME="$1"; EV="$2"
 P=${NAME:0:3}; V=${NAME:3}
-case "$V" in A|B) SRC=/tmp/seeded_out/$P/$V;; C) SRC=/tmp/seeded_out2/$P/A;; D) SRC=/tmp/seeded_out2/$P/B;; E) SRC=/tmp/seeded_out3/$P/A;; F) SRC=/tmp/seeded_out3/$P/B;; G) SRC=/tmp/seeded_out4/$P/A;; H) SRC=/tmp/seeded_out4/$P/B;; I) SRC=/tmp/seeded_out5/$P/A;; J) SRC=/tmp/seeded_out5/$P/B;; K) SRC=/tmp/seeded_out6/$P/A;; L) SRC=/tmp/seeded_out6/$P/B;; M) SRC=/tmp/seeded_out7/$P/A;; N) SRC=/tmp/seeded_out7/$P/B;; esac
+case "$V" in A|B) SRC=/tmp/seeded_out/$P/$V;; C) SRC=/tmp/seeded_out2/$P/A;; D) SRC=/tmp/seeded_out2/$P/B;; E) SRC=/tmp/seeded_out3/$P/A;; F) SRC=/tmp/seeded_out3/$P/B;; G) SRC=/tmp/seeded_out4/$P/A;; H) SRC=/tmp/seeded_out4/$P/B;; I) SRC=/tmp/seeded_out5/$P/A;; J) SRC=/tmp/seeded_out5/$P/B;; K) SRC=/tmp/seeded_out6/$P/A;; L) SRC=/tmp/seeded_out6/$P/B;; M) SRC=/tmp/seeded_out7/$P/A;; N) SRC=/tmp/seeded_out7/$P/B;; O) SRC=/tmp/seeded_out8/$P/A;; P) SRC=/tmp/seeded_out8/$P/B;; Q) SRC=/tmp/seeded_out9/$P/A;; R) SRC=/tmp/seeded_out9/$P/B;; esac
 [ -f "$SRC/confirm.log" ] || { echo "$NAME no confirm.log yet"; exit 0; }
 if [ -f "$SRC/confirm.override" ]; then C=$(cat "$SRC/confirm.override"); else C=$(python3 tools/confirm_summary.py "$SRC/confirm.log" "$NAME"); fi
 case "$C" in
